@@ -144,6 +144,10 @@ class Tables(object):
         # speaks of every listed delay), flagged by sis_unfiltered.
         self.unfiltered = bool(case.get("sis_unfiltered"))
         self.age_rule = bool(case.get("age_rule"))
+        # the user's rule hands out the SAME stored list object for an ordered pair every time it is asked
+        # (a memo table): the list depends on the pair only, is returned unfiltered, and belongs to the user
+        self.shared = bool(case.get("sis_shared_lists"))
+        self.memo = {}
         # SIS tables on a half-unit grid: attempts coincide with recoveries and with each other
         self.ties = bool(case.get("sis_ties"))
         # extra positional arguments the simulator must forward to each user function
@@ -202,6 +206,8 @@ class Tables(object):
         return 0.3 + 2.5 * keyed(self.seed, "sr", i, k)
 
     def sis_delays_k(self, i, j, k):
+        if self.shared:
+            k = 0
         m = int(keyed(self.seed, "sn", i, j, k) * 5)  # 0..4 attempts
         acc, out = 0.0, []
         for a in range(m):
@@ -224,6 +230,10 @@ class Tables(object):
         i, j = self.index[u], self.index[v]
         k = self._k("t", i, j)
         self.calls.append(("trans", u, v, k))
+        if self.shared:
+            if (i, j) not in self.memo:
+                self.memo[(i, j)] = self.sis_delays_k(i, j, 0)
+            return self.memo[(i, j)]
         # documented contract: "All delays are before recovery"
         return [d for d in self.sis_delays_k(i, j, k) if self.unfiltered or d < rec_delay]
 
@@ -234,6 +244,14 @@ class Tables(object):
         nb = list(neighbors)
         self.calls.append(("joint", node, k))
         dur = self.sis_duration_k(i, k)
+        if self.shared:
+            out = {}
+            for v in nb:
+                j = self.index[v]
+                if (i, j) not in self.memo:
+                    self.memo[(i, j)] = self.sis_delays_k(i, j, 0)
+                out[v] = self.memo[(i, j)]
+            return out, dur
         return {v: [d for d in self.sis_delays_k(i, self.index[v], k) if self.unfiltered or d < dur] for v in nb}, dur
 
     # discrete_SIR deterministic rule
